@@ -176,6 +176,32 @@ pub fn random_game(rng: &mut Rng, seeds: &[String], max_len: u64, need_legal_at_
     }
 }
 
+/// The same game continued by up to `n` more legal moves.
+pub fn extend_game(rng: &mut Rng, g: &Game, n: u64) -> Game {
+    let mut g = g.clone();
+    for _ in 0..n {
+        let p = g.last().clone();
+        let lm = p.legal_moves();
+        if lm.is_empty() || p.half >= 98 {
+            break;
+        }
+        let total: u64 = lm.iter().map(weight).sum();
+        let mut r = rng.below(total);
+        let mut pick = lm[0];
+        for x in &lm {
+            let w = weight(x);
+            if r < w {
+                pick = *x;
+                break;
+            }
+            r -= w;
+        }
+        g.positions.push(p.make(&pick));
+        g.moves.push(pick);
+    }
+    g
+}
+
 // ---------------------------------------------------------------------------
 // C08
 // ---------------------------------------------------------------------------
@@ -389,7 +415,8 @@ fn c08_session(ctx: &Ctx, idx: usize, seeds: &[String]) {
         positions: vec![Pos::startpos()],
     };
     let Ok(mut current) = expected_dump(&start_game) else { return };
-    let steps = 4 + rng.below(6);
+    let steps = 4 + rng.below(8);
+    let mut prev_game: Option<Game> = None;
     for step in 0..steps {
         let from = e.log.len();
         match rng.below(10) {
@@ -423,8 +450,25 @@ fn c08_session(ctx: &Ctx, idx: usize, seeds: &[String]) {
             }
             _ => {}
         }
-        let g = random_game(&mut rng, seeds, 40, false);
+        // like a GUI, most commands continue the game of the previous one (one or a few more
+        // moves, a take-back, or the same again); the others start an unrelated game
+        let n_more = 1 + rng.below(3);
+        let g = match (&prev_game, rng.below(10)) {
+            (Some(pg), 0..=3) => extend_game(&mut rng, pg, n_more),
+            (Some(pg), 4) => {
+                let mut g = pg.clone();
+                let keep = rng.below(g.moves.len() as u64 + 1) as usize;
+                g.moves.truncate(keep);
+                g.positions.truncate(keep + 1);
+                g
+            }
+            (Some(pg), 5) => pg.clone(),
+            _ => random_game(&mut rng, seeds, 40, false),
+        };
         let corrupt = rng.chance(2, 5);
+        if !corrupt {
+            prev_game = Some(g.clone());
+        }
         if !corrupt {
             let want = match expected_dump(&g) {
                 Ok(d) => d,
@@ -1152,6 +1196,40 @@ fn fuzz_line(rng: &mut Rng, seeds: &[String]) -> (String, bool) {
             7 => toks.push((*rng.pick(KEYWORDS)).to_string()),
             _ => toks.push((*rng.pick(JUNK_NUMBERS)).to_string()),
         }
+    }
+    // character-level damage inside one token (moves, numbers, keywords): multi-byte characters at
+    // every offset, dropped / doubled / swapped characters
+    if rng.chance(1, 3) && !toks.is_empty() {
+        let moves_at = toks.iter().position(|t| t == "moves");
+        let i = match moves_at {
+            Some(m) if m + 1 < toks.len() && rng.chance(3, 4) => m + 1 + rng.below((toks.len() - m - 1) as u64) as usize,
+            _ => rng.below(toks.len() as u64) as usize,
+        };
+        let mut chars: Vec<char> = toks[i].chars().collect();
+        let junk = ['é', '€', '♞', '٣', 'ß', '𝄞', 'Q', '0', '9', '-', '\u{7f}', 'İ'];
+        let n = 1 + rng.below(2);
+        for _ in 0..n {
+            let at = rng.below(chars.len() as u64 + 1) as usize;
+            match rng.below(5) {
+                0 if at < chars.len() => chars[at] = *rng.pick(&junk),
+                1 => chars.insert(at, *rng.pick(&junk)),
+                2 if at < chars.len() && chars.len() > 1 => {
+                    chars.remove(at);
+                }
+                3 if at < chars.len() => {
+                    let c = chars[at];
+                    chars.insert(at, c);
+                }
+                _ => {
+                    if chars.len() >= 2 {
+                        let a = rng.below(chars.len() as u64) as usize;
+                        let b = rng.below(chars.len() as u64) as usize;
+                        chars.swap(a, b);
+                    }
+                }
+            }
+        }
+        toks[i] = chars.into_iter().collect();
     }
     toks.retain(|t| !t.is_empty());
     // never corrupt a FEN: if the line still says 'fen' the six fields after it must be intact
